@@ -41,7 +41,7 @@ def floors(tier):
             "counter:mean_checks": 50, "counter:global_stream_consumed": 200, "class:stochastic": 80, "class:params": 50,
             "class:frozen": 25, "class:sampler-dict-args": 15, "class:sampler-tuple-args": 15, "class:simulate_param": 15, "class:solve_determ": 15, "class:solve_stochast": 15,
             "class:parameter-as-magnitude": 15, "class:assign-each": 10, "class:assign-once": 10, "class:assign-once+update": 20,
-            "counter:earlier_solve_on_other_grid": 30}
+            "counter:earlier_solve_on_other_grid": 30, "counter:earlier_seeded_helper_calls": 200}
 
 
 def fingerprint():
@@ -110,6 +110,21 @@ def run_case(rng, idx, tier, lane, ctx):
         d = {"what": what}
         d.update(kw)
         wit.append(d)
+
+    # earlier in the session the documented seeded helpers were used WITH an explicit seed (a quick look at a distribution): whatever
+    # private generators those calls made, every later unseeded draw of the simulators still comes from numpy's global generator
+    if rng.random() < 0.4:
+        import pygom.utilR as U
+        sd = rng.choice([0, 1, 7, 2024])
+        with np.errstate(all="ignore"):
+            for fn, args in (("rexp", (3, 1.5)), ("rpois", (2, 3.0)), ("rgamma", (2, 2.0, 1.0)), ("runif", (2, 0.0, 1.0)), ("rnorm", (2, 0.0, 1.0)),
+                             ("rbinom", (2, 5, 0.3)), ("rchisq", (2, 3))):
+                if rng.random() < 0.7:
+                    try:
+                        getattr(U, fn)(*args, seed=sd)
+                        counters["earlier_seeded_helper_calls"] = counters.get("earlier_seeded_helper_calls", 0) + 1
+                    except Exception:
+                        counters["earlier_seeded_helper_raised"] = counters.get("earlier_seeded_helper_raised", 0) + 1
 
     if kind == "stochastic":
         spec = GE.gen_events(rng, limits="default")
